@@ -19,7 +19,7 @@ CLAIMS = {
         "engine": "V+K",
         "technique": "Verus proof of the real slice_items against a CPython-slice spec (unbounded); Kani full-domain harness on resolve_index",
         "text": "Proof for all lengths and all Option<i128> start/stop and all non-zero i128 steps: Value::slice::slice_items returns exactly the elements Python's slice selects, in order, with every index in bounds and the loop terminating (saturation at the ends of i128 handled); index normalisation resolve_index proved over all i128/u128 indices and all lengths.",
-        "note": "The Slice/SliceOpt and BinarySubscript arms of interpret are under contract too (operand validation, optional variants). Character-wise string handling: Value::len bounded (<= 3 bytes); string iteration/reverse/truncate harnesses did not finish in CBMC and are NOT decided. Assumed: i128::saturating_add and Ord::clamp contracts.",
+        "note": "The Slice/SliceOpt and BinarySubscript arms of interpret are under contract too (operand validation, optional variants). Character-wise string handling: iteration over a string (the String arm of ForLoopIterator::next) is under a Verus contract over the character-sequence model of str: each call yields exactly the next CHARACTER, the position stays on a character boundary (the slice preconditions are proved) and `remaining` counts what is left; Value::len bounded (<= 3 bytes); string reverse did not finish in CBMC and is NOT decided (truncate: unit strfilters, C17). Assumed: i128::saturating_add and Ord::clamp contracts.",
         "design_ref": "DESIGN.md section 4 C14, Appendix A.1",
     },
     "C15": {
